@@ -16,6 +16,7 @@ mod model;
 mod ops;
 mod props;
 mod real;
+mod scenario;
 mod ser;
 
 use std::collections::BTreeSet;
